@@ -43,32 +43,17 @@ Section Dynamic.
   (* xarr[xarr > 9e29] = np.nan *)
   Definition clean (v : T) : T := if ltb OP big v then nan OP else v.
 
-  (* np.nanmin / np.nanmax: NaNs ignored; NaN when nothing is left *)
-  Fixpoint nanmin_o (l : list T) : option T :=
-    match l with
-    | [] => None
-    | x :: r => let m := nanmin_o r in
-                if isnan OP x then m else match m with None => Some x | Some y => Some (if ltb OP y x then y else x) end
-    end.
-  Fixpoint nanmax_o (l : list T) : option T :=
-    match l with
-    | [] => None
-    | x :: r => let m := nanmax_o r in
-                if isnan OP x then m else match m with None => Some x | Some y => Some (if ltb OP x y then y else x) end
-    end.
-  Definition nanmin (l : list T) : T := match nanmin_o l with Some v => v | None => nan OP end.
-  Definition nanmax (l : list T) : T := match nanmax_o l with Some v => v | None => nan OP end.
+  (* np.nanmin / np.nanmax: Model/DynBase.v *)
 
-  (* _compute_new_x_corners_for_antimeridian: None = (None, None) *)
+  (* _compute_new_x_corners_for_antimeridian: the four REGENERATED specialisations (mode "global_extents", "modify_crs",
+     "modify_extents", None/any other string); x % m is [wrapm m] element-wise, only m = 360 occurs.  None = (None, None) *)
+  Definition wrapm (m : Z) : T -> T := if m =? 360 then wrap360 else fun _ => nan OP.
   Definition new_x_corners (mode : amode) (xs : list T) : option (T * T) :=
     match mode with
-    | MGlobal => None
-    | _ => let w := map wrap360 xs in
-           let xmin := nanmin w in let xmax := nanmax w in
-           match mode with
-           | MCrs => Some (sub OP xmin (ofZ OP 180), sub OP xmax (ofZ OP 180))
-           | _ => Some (xmin, xmax)
-           end
+    | MGlobal => let '(_, _) := gen_nxc_global wrapm xs tt in None
+    | MCrs => Some (gen_nxc_crs OP wrapm xs tt)
+    | MExtents => Some (gen_nxc_extents OP wrapm xs tt)
+    | MNone | MOther => Some (gen_nxc_none OP wrapm xs tt)
     end.
 
   Definition passes_antimeridian (xmin xmax : T) : bool := ltb OP (ofZ OP 355) (sub OP xmax xmin).
@@ -79,9 +64,10 @@ Section Dynamic.
   Definition bound_centers (geographic : bool) (mode : amode) (pts : list (T * T)) : bool * option (T * T) * T * T :=
     let xs := map (fun p => clean (fst p)) pts in
     let ys := map (fun p => clean (snd p)) pts in
-    let xmin := nanmin xs in let xmax := nanmax xs in
-    let ymin := nanmin ys in let ymax := nanmax ys in
-    if geographic && passes_antimeridian xmin xmax && negb (y_is_pole ymin ymax) then
+    let xmin := nanmin OP xs in let xmax := nanmax OP xs in
+    let ymin := nanmin OP ys in let ymax := nanmax OP ys in
+    (* the guard is REGENERATED from the source: gen_am_test = geographic && passes_antimeridian && not y_is_pole *)
+    if gen_am_test OP xmin xmax ymin ymax (mk_crs geographic) then
       (match mode with MCrs => true | _ => false end, new_x_corners mode xs, ymin, ymax)
     else (false, Some (xmin, xmax), ymin, ymax).
 
